@@ -58,7 +58,7 @@ func mutateTok(v string, n int) string {
 // c09http: the HTTP face of introspection: caller authentication, hints,
 // required scopes, payload truthfulness, for every token of a history and mutants.
 func c09http(c *run.Ctx) {
-	n := c.N(48, 1600)
+	n := c.N(48, 4000)
 	c.Need("http_active_true", 1)
 	c.Need("http_caller_refused", 1)
 	for i := 0; i < n; i++ {
